@@ -21,6 +21,7 @@ noncomputable instance instRFunReal : RFun ℝ where
   ln := Real.log
   log10 := fun x => Real.log x / Real.log 10
   log2 := fun x => Real.log x / Real.log 2
+  exp2 := fun y => (2.0 : ℝ) ^ y
   sqrt := Real.sqrt
   sin := Real.sin
   cos := Real.cos
